@@ -81,50 +81,82 @@ pub struct Tally {
     pub ties: u64,
 }
 
+fn add_showdown(t: &mut Tally, s: &espada::evaluator::Showdown, n: usize, sigma: &[u8; 4]) -> Result<(), Fail> {
+    let tb = table();
+    let wl = s.winner_len() as usize;
+    let mut flagged = 0usize;
+    for (i, p) in s.players().iter().enumerate() {
+        if p.is_winner() {
+            flagged += 1;
+            if wl <= n {
+                t.wins[i][wl] += 1;
+            }
+        }
+        let idx = p.hand().power_index();
+        if (1..=7462).contains(&idx) {
+            let cat = tb.cat_of_class(idx);
+            if cat == 5 || cat == 8 {
+                let mut cnt = [0u8; 4];
+                for c in p.cards().iter() {
+                    cnt[suit_ix(c.suit()) as usize] += 1;
+                }
+                if let Some(fs) = (0..4).find(|x| cnt[*x] >= 5) {
+                    if sigma[fs] as usize != fs {
+                        t.flush_hands_in_moved_suit += 1;
+                    }
+                }
+            }
+        }
+    }
+    // the winners' shares of 1/winner_len add up to exactly one pot (rational arithmetic):
+    // flagged * (1/winner_len) == 1  <=>  flagged == winner_len and winner_len >= 1
+    if flagged != wl || wl == 0 {
+        return Err(Fail::new(
+            "pot-shares",
+            format!("showdown board {:?}: {} players flagged as winners, winner_len() = {}: the shares 1/winner_len do not add up to one pot", s.board(), flagged, wl),
+        ));
+    }
+    if wl >= 2 {
+        t.ties += 1;
+    }
+    t.showdowns += 1;
+    Ok(())
+}
+
 pub fn tally(cfg: &Config, sigma: &[u8; 4]) -> Result<Tally, Fail> {
     let n = cfg.ranges.len();
     let mut t = Tally { wins: vec![vec![0u64; n + 1]; n], ..Default::default() };
-    let tb = table();
     for s in cfg.evaluator() {
-        let wl = s.winner_len() as usize;
-        let mut flagged = 0usize;
-        for (i, p) in s.players().iter().enumerate() {
-            if p.is_winner() {
-                flagged += 1;
-                if wl <= n {
-                    t.wins[i][wl] += 1;
-                }
-            }
-            let idx = p.hand().power_index();
-            if (1..=7462).contains(&idx) {
-                let cat = tb.cat_of_class(idx);
-                if cat == 5 || cat == 8 {
-                    let mut cnt = [0u8; 4];
-                    for c in p.cards().iter() {
-                        cnt[suit_ix(c.suit()) as usize] += 1;
-                    }
-                    if let Some(fs) = (0..4).find(|x| cnt[*x] >= 5) {
-                        if sigma[fs] as usize != fs {
-                            t.flush_hands_in_moved_suit += 1;
-                        }
-                    }
-                }
-            }
-        }
-        // the winners' shares of 1/winner_len add up to exactly one pot (rational arithmetic):
-        // flagged * (1/winner_len) == 1  <=>  flagged == winner_len and winner_len >= 1
-        if flagged != wl || wl == 0 {
-            return Err(Fail::new(
-                "pot-shares",
-                format!("showdown board {:?}: {} players flagged as winners, winner_len() = {}: the shares 1/winner_len do not add up to one pot", s.board(), flagged, wl),
-            ));
-        }
-        if wl >= 2 {
-            t.ties += 1;
-        }
-        t.showdowns += 1;
+        add_showdown(&mut t, &s, n, sigma)?;
     }
     Ok(t)
+}
+
+/// The same tallies with all the runs alive at once on this thread, their next() calls taken in
+/// turn (a caller comparing spots side by side: zip, nested loops).
+pub fn tally_side_by_side(jobs: &[(Config, [u8; 4])]) -> Result<Vec<Tally>, Fail> {
+    let mut its: Vec<_> = jobs.iter().map(|(c, _)| Some(c.evaluator().into_iter())).collect();
+    let mut ts: Vec<Tally> = jobs.iter().map(|(c, _)| Tally { wins: vec![vec![0u64; c.ranges.len() + 1]; c.ranges.len()], ..Default::default() }).collect();
+    let mut live = its.len();
+    let mut round = 0usize;
+    while live > 0 {
+        for j in 0..its.len() {
+            // every third round the second run takes two steps, so that the runs drift apart
+            let steps = if round % 3 == 2 && j == 1 { 2 } else { 1 };
+            for _ in 0..steps {
+                let Some(it) = its[j].as_mut() else { break };
+                match it.next() {
+                    Some(s) => add_showdown(&mut ts[j], &s, jobs[j].0.ranges.len(), &jobs[j].1)?,
+                    None => {
+                        its[j] = None;
+                        live -= 1;
+                    }
+                }
+            }
+        }
+        round += 1;
+    }
+    Ok(ts)
 }
 
 pub fn check(c: &Case) -> CheckResult {
@@ -137,8 +169,17 @@ pub fn check(c: &Case) -> CheckResult {
         p.sort_unstable();
         vensure!(s == [0, 1, 2, 3] && p == (0..n).collect::<Vec<_>>(), "bad-case", "sigma / pi are not permutations");
     }
-    let base = tally(&c.cfg, &c.sigma)?;
-    let rel = tally(&relabel(&c.cfg, &c.sigma), &[0, 1, 2, 3])?;
+    // in half of the cases the three runs are alive side by side on this thread, in the other
+    // half one after the other
+    let side_by_side = fp_of(&format!("{:?}", c)) % 2 == 0;
+    let (base, rel, per) = if side_by_side {
+        let mut v = tally_side_by_side(&[(c.cfg.clone(), c.sigma), (relabel(&c.cfg, &c.sigma), [0, 1, 2, 3]), (permute(&c.cfg, &c.pi), [0, 1, 2, 3])])?;
+        let per = v.pop().unwrap();
+        let rel = v.pop().unwrap();
+        (v.pop().unwrap(), rel, per)
+    } else {
+        (tally(&c.cfg, &c.sigma)?, tally(&relabel(&c.cfg, &c.sigma), &[0, 1, 2, 3])?, tally(&permute(&c.cfg, &c.pi), &[0, 1, 2, 3])?)
+    };
     let sname = |s: &[u8; 4]| (0..4).map(|i| format!("{}->{}", SUIT_CH[i], SUIT_CH[s[i] as usize])).collect::<Vec<_>>().join(" ");
     vensure!(
         rel.wins == base.wins && rel.showdowns == base.showdowns,
@@ -152,7 +193,6 @@ pub fn check(c: &Case) -> CheckResult {
         rel.wins,
         rel.showdowns
     );
-    let per = tally(&permute(&c.cfg, &c.pi), &[0, 1, 2, 3])?;
     let expect: Vec<Vec<u64>> = c.pi.iter().map(|i| base.wins[*i].clone()).collect();
     vensure!(
         per.wins == expect && per.showdowns == base.showdowns,
@@ -325,7 +365,7 @@ pub fn brief(c: &Case) -> Value {
 }
 
 pub fn run(ctx: &mut Ctx) {
-    ctx.rule = "proptest metamorphic cases: flop biased to 2-3 cards of one suit, 2-4 players with suit-asymmetric ranges (single-suit ranges, explicit combos, card pools, a mirrored second player for ties; stream wide_ranges: a range of 256-700 combos beside a narrow one), a non-identity suit permutation (all 23) and a player permutation; stream order_sensitive_weight_products: three players whose weights are constructed so that the f32 product depends on the multiplication order and straddles a natural threshold (EPSILON, 2^-24, 1e-6, 1e-7, 1e-9, 1e-3, MIN_POSITIVE), checked in all six player orders; stream many_players: 11-16 single-combo players from a card pool, or 2-23 single-combo players that are pairwise disjoint except for exactly one pair of seats, with a permutation that reverses the seats. Relations: integer tallies wins[player][k-way] and the showdown count are equal after relabelling flop and ranges, and permute with the players; in every showdown flagged winners == winner_len >= 1 (shares of 1/winner_len sum to one pot, rational arithmetic). Non-trivial = some winning-or-losing flush hand lies in a suit the permutation moves AND >= 1 tie AND >= 2 players win something AND the player order changes; distinct by case.".into();
+    ctx.rule = "proptest metamorphic cases (in half of them the original, the relabelled and the reordered run are alive side by side on one thread with their next() calls taken in turn, otherwise one after the other): flop biased to 2-3 cards of one suit, 2-4 players with suit-asymmetric ranges (single-suit ranges, explicit combos, card pools, a mirrored second player for ties; stream wide_ranges: a range of 256-700 combos beside a narrow one), a non-identity suit permutation (all 23) and a player permutation; stream order_sensitive_weight_products: three players whose weights are constructed so that the f32 product depends on the multiplication order and straddles a natural threshold (EPSILON, 2^-24, 1e-6, 1e-7, 1e-9, 1e-3, MIN_POSITIVE), checked in all six player orders; stream many_players: 11-16 single-combo players from a card pool, or 2-23 single-combo players that are pairwise disjoint except for exactly one pair of seats, with a permutation that reverses the seats. Relations: integer tallies wins[player][k-way] and the showdown count are equal after relabelling flop and ranges, and permute with the players; in every showdown flagged winners == winner_len >= 1 (shares of 1/winner_len sum to one pot, rational arithmetic). Non-trivial = some winning-or-losing flush hand lies in a suit the permutation moves AND >= 1 tie AND >= 2 players win something AND the player order changes; distinct by case.".into();
     ctx.assumptions = vec!["tallies are integer counts as in the README loop; f32 sums are not compared (3 x 1/3 need not round to 1)".into()];
     let budget = ctx.tier.pick(150_000u128, 1_500_000u128);
     let cases = ctx.tier.pick(1_200, 12_000);
